@@ -303,6 +303,40 @@ def _maybe_long(rng, ir):
             p["doc"] = p["doc"].rstrip(".") + " " + LONG + "."
 
 
+def with_long_token(rng, text, kind=None):
+    """text with one whitespace-free token longer than the wrap width (URL, path, dotted/underscored identifier, hyphenated
+    compound, digits) put in place of / next to one of its words; the terminal punctuation stays"""
+    tok = G.long_token(rng, kind)
+    body = text.rstrip(".,")
+    term = text[len(body):]
+    ws = body.split(" ")
+    i = rng.randrange(len(ws) + 1)
+    if rng.random() < 0.3 and i < len(ws) and ws[i]:
+        ws[i] = tok
+    else:
+        ws.insert(i, tok)
+    return " ".join(ws) + term
+
+
+def _maybe_long_token(rng, ir, tags, p_doc=0.06, p_param=0.04):
+    """stratum: a token that no line of the wrap width can hold, in a summary line and / or in parameter / return prose"""
+    hit = False
+    if isinstance(ir.get("doc"), str) and ir["doc"] and rng.random() < p_doc:
+        lines = ir["doc"].split("\n")
+        i = rng.randrange(len(lines))
+        lines[i] = with_long_token(rng, lines[i])
+        ir["doc"] = "\n".join(lines)
+        hit = True
+    ps = list((ir.get("params") or {}).values()) + list((ir.get("returns") or {}).values())
+    for p in ps:
+        if isinstance(p.get("doc"), str) and p["doc"] and "\n" not in p["doc"] and "efault" not in p["doc"] and rng.random() < p_param:
+            p["doc"] = with_long_token(rng, p["doc"])
+            hit = True
+    if hit:
+        tags.append("long-token")
+    return hit
+
+
 def gen_ir_spec(rng, tags, stream):
     clean = stream == "clean"
     ir, t = gen_ir.gen_ir(rng, clean=clean)
@@ -311,6 +345,7 @@ def gen_ir_spec(rng, tags, stream):
           "params": OrderedDict((k, dict(v)) for k, v in ir["params"].items()),
           "returns": None if ir["returns"] is None else OrderedDict((k, dict(v)) for k, v in ir["returns"].items())}
     _maybe_long(rng, ir)
+    _maybe_long_token(rng, ir, tags)
     if stream == "malformed":
         r = rng.random()
         tags.append("malformed")
@@ -436,6 +471,9 @@ def gen_param_case(rng):
         if rng.random() < 0.8:
             p["doc"] = rng.choice([G.prose(rng), G.clean_prose(rng), "", None, "x. Defaults to 5", "n. Default: 'a'.",
                                    "Defaults to ```[1, 2]```", LONG])
+        if isinstance(p.get("doc"), str) and p["doc"] and "\n" not in p["doc"] and "efault" not in p["doc"] and rng.random() < 0.08:
+            p["doc"] = with_long_token(rng, p["doc"])
+            tags.append("long-token")
         if rng.random() < 0.75:
             p["default"] = rng.choice([G.value(rng), "```" + rng.choice(CODE_SNIPPETS) + "```", rng.choice(CODE_SNIPPETS),
                                        "```(None)```", None, 0, "", False, 0.0])
